@@ -276,6 +276,43 @@ def expand_ctor_call(prog, res, depth=0):
 ELEMENT_COPY = re.compile(r"::(into_owned|clone|to_owned|into|from|to_vec|to_string)$")
 
 
+def _elem_field(b, defs, op, next_dest, depth=0):
+    """name of the field of the loop element (the `Some` payload of the value `next()` returned into local next_dest) an operand is
+    taken from, through element-wise copies (into_owned / clone / into ..) and single-variant constructors (`Cow::Owned(..)`);
+    "" for the whole element, None when it is something else"""
+    cur = mu.op_local(op)
+    for _ in range(12):
+        d = mu.single_def(defs, cur) if cur is not None else None
+        if d is None:
+            return None
+        if d[1] == "term":
+            t = d[2]
+            if not (t["callee"] and ELEMENT_COPY.search(t["callee"]["def"])) or not t["args"]:
+                return None
+            cur = mu.op_local(t["args"][0])
+            continue
+        rv = d[2]
+        if rv.get("k") == "agg" and rv.get("ak") == "adt" and len(rv.get("ops") or []) == 1 and depth < 4:
+            # a wrapper around one value (`Cow::Owned(x)`, `Some(x)`)
+            return _elem_field(b, defs, rv["ops"][0], next_dest, depth + 1)
+        if rv.get("k") in ("use", "cast", "ref"):
+            pl = rv["op"]["pl"] if rv.get("k") != "ref" else rv["pl"]
+            if rv.get("k") != "ref" and rv["op"].get("o") not in ("copy", "move"):
+                return None
+            proj = [p for p in pl["p"] if isinstance(p, dict)]
+            if any(p.get("n") == "Some" for p in proj) and mu.origin_local(b, defs, pl["l"]) == next_dest:
+                fs = [p["n"] if p.get("n") is not None else str(p["f"]) for p in proj if "f" in p and p.get("adt") != "std::option::Option"]
+                return str(fs[0]) if fs else ""
+            fs = [p["n"] if p.get("n") is not None else str(p["f"]) for p in proj if "f" in p]
+            if not fs:
+                cur = pl["l"]
+                continue
+            inner = _elem_field(b, defs, {"o": "copy", "pl": {"l": pl["l"], "p": []}}, next_dest, depth + 1) if depth < 4 else None
+            return str(fs[0]) if inner == "" else None
+        return None
+    return None
+
+
 def collapse_collect_loops(prog, b):
     """copy of body b in which every loop of the shape `for x in <self.field> { V.push(copy-of(x)) }` is replaced by
     `V = <self.field>`; None when some loop has another shape"""
@@ -290,6 +327,10 @@ def collapse_collect_loops(prog, b):
         body = set(info["body"])
         nexts = [(bi, t) for bi, t in mu.calls(b, r"as std::iter::Iterator>::next$") if bi in body]
         pushes = [(bi, t) for bi, t in mu.calls(b, r"^std::vec::Vec::<T, A>::push$") if bi in body]
+        inserts = [(bi, t) for bi, t in mu.calls(b, r"^std::collections::(BTreeMap::<K, V, A>|HashMap::<K, V, S>)::insert$") if bi in body]
+        is_map = len(pushes) == 0 and len(inserts) == 1 and len(inserts[0][1]["args"]) == 3
+        if is_map:
+            pushes = inserts          # `for (k, v) in self.map { m.insert(k, copy-of(v)) }`
         if len(nexts) != 1 or len(pushes) != 1:
             return None
         # the iterated collection: a field of self, moved or borrowed into into_iter() / iter()
@@ -330,6 +371,12 @@ def collapse_collect_loops(prog, b):
         pbi, pt = pushes[0]
         cur = mu.op_local(pt["args"][1])
         ok_elem = False
+        if is_map:
+            cur = None
+            ok_elem = _elem_field(b, defs, pt["args"][1], nexts[0][1]["dest"]["l"]) == "0" and \
+                _elem_field(b, defs, pt["args"][2], nexts[0][1]["dest"]["l"]) == "1"
+            if not ok_elem:
+                return None
         for _ in range(8):
             d = mu.single_def(defs, cur) if cur is not None else None
             if d is None:
@@ -350,6 +397,14 @@ def collapse_collect_loops(prog, b):
                 cur = pl["l"]
             else:
                 break
+        if not ok_elem and not is_map:
+            # the element rebuilt field by field: `v.push(T { a: x.a, b: copy-of(x.b) })` (what the mapping closure of the
+            # iterator form does): every field of the aggregate pushed comes from the same field of the element
+            d = mu.single_def(defs, mu.op_local(pt["args"][1])) if mu.op_local(pt["args"][1]) is not None else None
+            if d is not None and d[1] != "term" and d[2].get("k") == "agg" and d[2].get("ak") == "adt" and d[2].get("fields") and \
+                    len(d[2]["fields"]) == len(d[2]["ops"]):
+                got = [_elem_field(b, defs, o, nexts[0][1]["dest"]["l"]) for o in d[2]["ops"]]
+                ok_elem = all(g is not None and g == str(f) for g, f in zip(got, d[2]["fields"]))
         if not ok_elem:
             return None
         vl = None
